@@ -1,4 +1,5 @@
 import Crd.Props.C12
+import Crd.Props.IO
 #print axioms Crd.Props.C12.sites_accounted
 #print axioms Crd.Props.C12.adj_unique
 #print axioms Crd.Props.C12.adjust_order_irrelevant
@@ -14,3 +15,4 @@ import Crd.Props.C12
 #print axioms Crd.Props.C12.listings_sorted
 #print axioms Crd.Props.C12.validation_order_irrelevant
 #print axioms Crd.Props.C12.meta_marshal_order_irrelevant
+#print axioms Crd.Props.IO.io_sites_accounted
